@@ -80,7 +80,7 @@ struct Named {  // identity of an instrumented object
 
 // ------------------------------------------------------------------------------------------------
 // scheduler
-enum class Pol { Random, Pct, Replay, Np, Solo };
+enum class Pol { Random, Pct, Replay, Np, Solo, Rr };
 
 struct PendOp {
     const char* kind = "";
@@ -388,6 +388,17 @@ inline Cand choose()
             }
         }
         pol = Pol::Random;
+    }
+    if (pol == Pol::Rr) {
+        // strictly fair round-robin over the threads that can move (a spinning thread keeps its turn: yields are ordinary
+        // steps here); spurious wake-ups are not taken
+        std::vector<Cand> d;
+        for (auto& x : c)
+            if (!x.weak) d.push_back(x);
+        if (d.empty()) d = c;
+        for (auto& x : d)
+            if (x.t->id > R.lastT) return x;
+        return d.front();
     }
     // yielded threads are deprioritised: drop them if someone else can move
     {
@@ -1238,7 +1249,7 @@ inline int main_loop(int argc, char** argv, std::function<void(Exec&)> body)
         if (k == "out") out = v;
         else if (k == "n") n = atol(v.c_str());
         else if (k == "seed") base.seed = strtoull(v.c_str(), nullptr, 10);
-        else if (k == "pol") base.pol = v == "pct" ? Pol::Pct : v == "np" ? Pol::Np : v == "solo" ? Pol::Solo : Pol::Random;
+        else if (k == "pol") base.pol = v == "pct" ? Pol::Pct : v == "np" ? Pol::Np : v == "solo" ? Pol::Solo : v == "rr" ? Pol::Rr : Pol::Random;
         else if (k == "sched") schedFile = v;
         else if (k == "budget") base.budget = atol(v.c_str());
         else if (k == "spurious") base.spurious = atoi(v.c_str()) != 0;
